@@ -1262,6 +1262,29 @@ impl<E: Elem> Engine<E> {
         if pre.cols >= 9 || pre.num_rows() >= 9 {
             self.stats.probe("large_shape_step");
         }
+        if pre.num_rows() >= 33 || pre.cols >= 33 {
+            self.stats.probe("shape_33_or_more");
+        }
+        if pre.cols * std::mem::size_of::<E>() > 256 && (step.op.is_remove() || step.op.is_insert()) {
+            self.stats.probe("structural_edit_with_rows_over_256_bytes");
+        }
+        match &step.op {
+            Op::CloneFrom { c, r, .. } => {
+                if (*c, *r) != (pc, pr) && c * r == pc * pr && pc > 0 {
+                    self.stats.probe("clone_from_same_count_other_shape");
+                }
+                self.stats.probe("clone_from");
+            }
+            Op::RemoveRow { script, .. } | Op::PopRow { script } | Op::RemoveCol { script, .. } | Op::PopCol { script } | Op::IntoIter { script } => {
+                if script.acts.iter().any(|&a| a >= 6) {
+                    self.stats.probe("guard_consumed_with_nth_jump");
+                }
+                if script.leak && E::FLAVOUR == Flavour::Mov {
+                    self.stats.probe("leak_with_element_without_drop_glue");
+                }
+            }
+            _ => {}
+        }
         if fired {
             match &step.op {
                 Op::RemoveCol { .. } | Op::PopCol { .. } => self.stats.probe("unwind_during_drain_col"),
